@@ -92,8 +92,12 @@ def prelude() -> List[Tuple[str, str, Any]]:
         And(*[pow2(z3.IntVal(kk)) == z3.IntVal(2 ** kk) for kk in range(0, 131)]))
     add("pow2-pos", "Nat.pos_pow_of_pos", FA([k], Imp(k >= 0, pow2(k) >= 1), patterns=[pow2(k)]))
     add("pmod-def", "definitional: pmod(x,d) is x mod d for d > 0 (Nat.mod_lt, Nat.mod_le)",
-        FA([x, d], Imp(d > 0, And(pmod(x, d) == x % d, pmod(x, d) >= 0, pmod(x, d) < d,
+        FA([x, d], Imp(d > 0, And(pmod(x, d) >= 0, pmod(x, d) < d,
                                   Imp(x >= 0, pmod(x, d) <= x))), patterns=[pmod(x, d)]))
+    # the link to the solver's built-in (non-linear for a symbolic divisor) mod is only added to queries that do not
+    # involve the set theory (see Engine.relevant_prelude): it is needed for plain arithmetic goals only
+    add("pmod-builtin", "definitional: pmod(x,d) = x mod d",
+        FA([x, d], Imp(d > 0, pmod(x, d) == x % d), patterns=[pmod(x, d)]))
     add("pmod-idem", "Nat.mod_mod", FA([x, d], Imp(d > 0, pmod(pmod(x, d), d) == pmod(x, d)),
                                        patterns=[pmod(pmod(x, d), d)]))
     add("pad-def", "definitional (Lean Pydsdl.pad): pad r x = (x + r - 1) / r * r; with Basic.pad_dvd, le_pad, pad_lt",
@@ -154,7 +158,10 @@ def prelude() -> List[Tuple[str, str, Any]]:
         FA([A], kfold(A, 1) == A, patterns=[kfold(A, 1)]))
     add("nsum-zero", "definitional (Lean nsum [] = {0})", FA([F], nsum(F, 0) == singleton_f(0), patterns=[nsum(F, 0)]))
     add("dmap", "definitional: Dmap C i = D (C i)  (the list of the children's sets)",
-        FA([C, i], sel(dmap_f(C), i) == D_uf(sel(C, i)), patterns=[sel(dmap_f(C), i)]))
+        FA([C, i], sel(dmap_f(C), i) == D_uf(sel(C, i)),
+           patterns=[sel(dmap_f(C), i), MP(D_uf(sel(C, i)), dmap_f(C))]))
+    add("nsum-one", "Lean Bounds.nsum_single", FA([F], nsum(F, 1) == sel(F, 0), patterns=[nsum(F, 1)]))
+    add("nsum-two", "Lean Bounds.nsum_pair", FA([F], nsum(F, 2) == sumset_f(sel(F, 0), sel(F, 1)), patterns=[nsum(F, 2)]))
     add("minmap", "definitional", FA([F, i], sel(minmap(F), i) == smin(sel(F, i)), patterns=[sel(minmap(F), i)]))
     add("maxmap", "definitional", FA([F, i], sel(maxmap(F), i) == smax(sel(F, i)), patterns=[sel(maxmap(F), i)]))
 
